@@ -90,6 +90,13 @@ pub fn main() -> i32 {
             }
             trace(&args[1..4])
         }
+        // `check minimise <engine> <replay file> <property> <class>`: prints `MINIMISED <path>`.
+        "minimise" => {
+            if let Some(p) = props::minimise_replay(&args[1], &args[2], &args[3], &args[4]) {
+                println!("MINIMISED {p}");
+            }
+            0
+        }
         "selftest-determinism" => selftest_determinism(&args[1..]),
         "survey" => survey(&args[1..]),
         "list" => {
@@ -436,7 +443,25 @@ fn check(p: &props::Prop, args: &[String]) -> i32 {
     // Report the first violation (lowest batch order, lowest seed) with a minimised replay.
     let (b, r, v) = new_violations[0];
     let replay = r.replay.clone().unwrap_or_default();
-    let replay = props::minimise_replay(b.engine, &replay, p.id, &v.class).unwrap_or(replay);
+    // The minimiser runs in a child process: a run under an artificial cut (or a shrunk plan) may
+    // hang or die in ways the original run did not; that must not take the check down with it.
+    let replay = {
+        let exe = std::env::current_exe().expect("current_exe");
+        let out = Command::new(exe)
+            .args(["minimise", b.engine, &replay, p.id, &v.class])
+            .env("VERIF_RUN_TIMEOUT_S", "60")
+            .stdout(Stdio::piped())
+            .stderr(Stdio::null())
+            .output();
+        match out {
+            Ok(o) if o.status.success() => String::from_utf8_lossy(&o.stdout)
+                .lines()
+                .find_map(|l| l.strip_prefix("MINIMISED ").map(|s| s.trim().to_string()))
+                .filter(|p| std::path::Path::new(p).exists())
+                .unwrap_or(replay),
+            _ => replay,
+        }
+    };
     println!("  {} violation(s); first: seed {} class {}: {}", new_violations.len(), r.seed, v.class, v.detail);
     println!("VIOLATION property={} replay={}", p.id, replay);
     1
